@@ -93,7 +93,7 @@ def r18_1_cycles(ctx, rid='R18.1'):
     r.done()
 
 
-def r18_3_written_vs_accepted(ctx, rid='R18.3'):
+def r18_3_written_vs_accepted(ctx, rid='R18.3', skip_kinds=()):
     P = ctx.P
     r = ctx.rule(rid, 'what processing writes, recognition accepts: the tag __type_to_tag gives a node satisfies the accept guard of '
                       'the same kind\'s recogniser (an aliased node is met again after the first reference was processed)', floor=7)
@@ -121,6 +121,8 @@ def r18_3_written_vs_accepted(ctx, rid='R18.3'):
     enum_t, enum_f, str_t, str_f = S._recognizer_arms(g)
     finals = [(ret, v) for ret, v in S.accept_returns(g) if not g.cfg.enclosing_handlers(ret)]
     for kind, arms, allowed in (('enum', enum_t, {STR, BOOL}), ('string-like', str_t, {STR})):
+        if kind in skip_kinds:
+            continue
         # the accept guard restricts the tag to core tags: a node already retagged '!Name' is rejected
         restricts = S.branch_nodes(g, S.est_tag_within('%s.tag' % gnode, allowed, g.copies))
         needs_core = any(rn in g.cfg.reachable(a_) and g.cfg.must_pass(a_, rn, restricts) for a_ in arms for rn in [g.nid(ret) for ret, _ in finals])
